@@ -11,6 +11,9 @@ import subprocess
 import sys
 
 VERIF = os.path.dirname(os.path.dirname(os.path.abspath(__file__)))
+# the tree the checks look at (a private worktree when several runners work side by side on copies of /verif)
+REPO = os.environ.get('VERIF_REPO', '/repo')
+SEEDED = os.environ.get('SEEDED_DIR', os.path.join(VERIF, 'seeded'))
 
 
 def sh(cmd, cwd=None, env=None, timeout=3000):
@@ -46,7 +49,7 @@ def main():
     for k in ks or (1, 2, 3, 4):
         patch = os.path.join(wt, 'seed', 'patch%d.diff' % k)
         demo = 'seed/demo%d.py' % k
-        stored = os.path.join(VERIF, 'seeded', '%s_%d' % (pid, k))
+        stored = os.path.join(SEEDED, '%s_%d' % (pid, k))
         if not os.path.exists(patch) and os.path.exists(os.path.join(stored, 'patch.diff')):
             # restore the stored change into the scratch worktree
             os.makedirs(os.path.join(wt, 'seed'), exist_ok=True)
@@ -67,7 +70,7 @@ def main():
         res['confirmed'] = (rc0 == 0 and rc1 == 1 and rca == 0 and 'missing: 0' in bout)
         res['checks'] = {}
         if res['confirmed']:
-            rc, out = sh('git -C /repo apply %s' % patch)
+            rc, out = sh('git -C %s apply %s' % (REPO, patch))
             if rc != 0:
                 res['apply_to_repo'] = out[-500:]
             else:
@@ -86,8 +89,8 @@ def main():
                         res['checks'][c] = {'exit': rc, 'violation': viol[:1], 'fails': fails,
                                             'tail': out.splitlines()[-1:] if out else []}
                 finally:
-                    sh('git -C /repo checkout -- .')
-        d = os.path.join(VERIF, 'seeded', '%s_%d' % (pid, k))
+                    sh('git -C %s checkout -- .' % REPO)
+        d = os.path.join(SEEDED, '%s_%d' % (pid, k))
         os.makedirs(d, exist_ok=True)
         if os.path.abspath(patch) != os.path.abspath(os.path.join(d, 'patch.diff')):
             shutil.copy(patch, os.path.join(d, 'patch.diff'))
